@@ -200,7 +200,7 @@ Lemma get_layers_spec c um s :
     | Fail => True
     | Diverged => check_inheritance (read_layer_files c (w_fs (s_w s))) = true
                   /\ normalize_order (read_layer_files c (w_fs (s_w s))) = None
-    | Panicked => ~ KW (s_w s)
+    | Panicked => False
     | Crashed => False
     end.
 Proof.
@@ -211,7 +211,7 @@ Proof.
   2:{ exists Diverged. now split. }
   unfold ret at 1. cbv beta iota. unfold probe_all, bind. rewrite refresh_eq.
   destruct (probe_of (w_ks (s_w s))) as [|ms ds] eqn:Ep.
-  - exists Panicked. split; [reflexivity|]. intros HK. destruct (probe_of_ok _ HK) as (? & ? & E). congruence.
+  - exfalso. destruct (probe_of_total (w_ks (s_w s))) as (? & ? & E). congruence.
   - unfold get_fs, ret. cbv beta iota. eexists (Ret _). split; [reflexivity|].
     set (ld0 := MkLD (overlain_map c ms (read_layer_files c (w_fs (s_w s)))) o (POk ms ds)).
     assert (H0 : LDI (skel (read_layer_files c (w_fs (s_w s)))) ld0).
